@@ -381,7 +381,7 @@ fn parse_pcfg(tokens: &[&str]) -> PCfg {
 
 fn build_muxer<W: Write>(c: &PCfg, w: W) -> Result<Muxer<W>, MuxerError> {
     let mut b = MuxerBuilder::new(w);
-    let set = c.path == "set";
+    let set = c.path == "set" || c.path == "setonly" || c.path == "setrev";
     if !c.novideo {
         b = if set { b.set_video_track(c.codec, c.w, c.h, c.fps) } else { b.video(c.codec, c.w, c.h, c.fps) };
     }
@@ -389,6 +389,30 @@ fn build_muxer<W: Write>(c: &PCfg, w: W) -> Result<Muxer<W>, MuxerError> {
         b = if set { b.set_audio_track(ac, r, ch) } else { b.audio(ac, r, ch) };
     }
     b = b.with_fast_start(c.fast);
+    // "setonly" / "setrev": metadata configured through the builder's setters alone (no `with_metadata`
+    // call unless a title has to be installed), in either order
+    let setonly = c.path == "setonly" || c.path == "setrev";
+    if c.md && setonly {
+        if let Some(t) = &c.title {
+            b = b.with_metadata(Metadata::new().with_title(t.clone()));
+        }
+        if c.path == "setrev" {
+            if let Some(l) = &c.lang {
+                b = b.set_language(l.clone());
+            }
+            if let Some(t) = c.ctime {
+                b = b.set_create_time(t);
+            }
+        } else {
+            if let Some(t) = c.ctime {
+                b = b.set_create_time(t);
+            }
+            if let Some(l) = &c.lang {
+                b = b.set_language(l.clone());
+            }
+        }
+        return b.build();
+    }
     if c.md {
         let mut m = Metadata::new();
         if let Some(t) = &c.title {
